@@ -318,7 +318,7 @@ const _: () = {
                 .and_then(|idx| self.self_owned.0.get_mut(idx))
                 .and_then(|v| v.take().map(|(_, v)| v))?;
 
-            self.rev_pos += 1;
+            self.rev_pos = self.rev_pos.saturating_sub(1);
             Some(v_ref)
         }
     }
